@@ -178,7 +178,8 @@ let explain06 cfg m o =
 
 let explain07 m o =
   String.concat "," (List.filter (fun s -> s <> "")
-    [ (if chk_gate m o then "" else "gate"); (if chk_inbound m o then "" else "inbound/pipeline") ])
+    [ (if chk_gate m o then "" else "gate"); (if chk_declared m o then "" else "declared-condition");
+      (if chk_inbound m o then "" else "inbound/pipeline") ])
 
 (* known finding C06-nil-nil: (nil, nil) after a control response reusing the call's system bytes *)
 let nilnil_known cfg m o =
